@@ -6,8 +6,8 @@ HOOK_COMMITS = ["3035d0b"]
 
 CHECKS = {
  "C01": dict(cat="model_checking", eng="e1", tech="explicit-state BFS over byte images to closure + exhaustive op-sequence enumeration on the real code, against a reference tree model",
-   text="Every operation history over a finite path/size alphabet is executed on the real CompoundFile: breadth-first search over byte images until no new image appears (so histories of any length over that alphabet), live bursts from every state, and all content-op sequences up to a depth; after every step result, error kind, listings, walk order, metadata, lengths and bytes are compared with an independent tree model. Bounded-exhaustive model checking is the right level: the property quantifies over histories and the state space closes.",
-   note="Trusted: the reference model (a Vec-of-nodes tree), pinned storage timestamps, 128-bit image hashes as state keys; alphabet = 4-7 paths with empty streams for closure, 8-15 boundary sizes for content.", ref="4 E1"),
+   text="Every operation history over a finite path/size alphabet is executed on the real CompoundFile: breadth-first search over byte images until no new image appears (so histories of any length over that alphabet: a nested tree alphabet of 4-5 paths x 7 mutators, and a flat alphabet of 5-6 siblings in one storage covering every insertion and removal order), live bursts from every state, and all content-op sequences up to a depth; after every step result, error kind, listings, walk order, metadata, lengths and bytes are compared with an independent tree model. Bounded-exhaustive model checking is the right level: the property quantifies over histories and the state space closes.",
+   note="Trusted: the reference model (a Vec-of-nodes tree), pinned storage timestamps, 128-bit image hashes as state keys; alphabets: 4-5 nested paths and 5-6 flat siblings with empty streams for closure (6 nested paths exceed 60 GB of frontier and are not run), 8-15 boundary sizes for content.", ref="4 E1"),
  "C02": dict(cat="model_checking", eng="e1", tech="exhaustive crash-point enumeration: un-flushed snapshot at every op boundary of every explored history, reopened in both modes and continued",
    text="At every operation boundary of every explored history the backing bytes are copied without flush and reopened permissively and strictly; both views must equal the live view and the independent parser's reading, and continuing on the reopened file (one reopen at every position of every sequence) must give the same results and final model as continuing live.",
    note="Crash = loss of the process between two API calls with no handle holding unflushed data; torn writes inside one API call are outside the property. Trusted: independent parser, reference model.", ref="4 E1"),
@@ -30,7 +30,7 @@ CHECKS = {
    text="Each read-only workload (open in both modes + lookups; buffered reads of a mini and a regular stream with refills, fill_buf/consume and seeks across the window, two buffer sizes, both versions) is first run fault-free to learn its N underlying calls, then once per read/seek call index with that call failing, then for all pairs of positions in the stream-read phase (thorough: all pairs including the open phase for V3). Failed API calls are retried. Every successful call must return the fault-free value, bytes must equal the true content at the position the handle reports, and nothing may panic.",
    note="Faults are ErrorKind::Other failures with no side effect on the backend. Three or more faults per run, and faults combined with short reads, are not explored.", ref="4 E4"),
  "C13": dict(cat="fault_enumeration", eng="e4", tech="exhaustive fault injection at every underlying write/seek/flush call index of mutating workloads (pairs in thorough), with retry of the failed call and the rest of the workload",
-   text="Four mutating workloads (small stream then migration to a regular chain; large, overwrite, shrink to mini, grow back; storages/streams/removals/setters; buffer-overflow write-back with a 1024-byte buffer) x both versions: one run per write/seek/flush call index failing (thorough: all pairs). Oracles: a fault delivered during an API call makes that call return Err (Drop excluded); nothing panics or hangs afterwards (stall watchdog); whenever flush returns Ok a fresh handle reads back every byte accepted by earlier writes, also after an earlier failed flush.",
+   text="Four mutating workloads (small stream then migration to a regular chain; large, overwrite, shrink to mini, grow back; storages/streams/removals/setters; buffer-overflow write-back with a 1024-byte buffer) x both versions: one run per write/seek/flush call index failing (thorough: all pairs after file creation with the second fault within the next 300 (V3) / 60 (V4) underlying calls). Oracles: a fault delivered during an API call makes that call return Err (Drop excluded); nothing panics or hangs afterwards (stall watchdog); whenever flush returns Ok every byte accepted by earlier writes is read back by a fresh handle on the live object and - while every fault so far struck during a write-back, not during a structural call - from a permissive reopen of the backing bytes, also after an earlier failed flush.",
    note="After a failed set_len / create the stream's content is treated as unknown (only no-panic is judged). Faults have no side effect on the backend (no torn writes).", ref="4 E4"),
  "C18": dict(cat="model_checking", eng="e4", tech="exhaustive enumeration of histories x environment answers (every chunk size, a short count / Interrupted at every transfer index, real file, buffer sizes, versions) with byte-identity oracle",
    text="Every history of a bounded set (all op sequences to depth 2-3 over a content alphabet with a nested storage, plus the growth seeds) is run plain, again, on a real file through cfb::create / open_rw / open, with all transfers chunked to c bytes for each c in the list, with Interrupted on every 2nd/3rd/5th transfer, with one 1-byte short count and one Interrupted at every transfer index k, for each max_buffer_size and in the other version. Results and final images must be byte-identical (logical dumps for buffer size and version).",
